@@ -16,7 +16,7 @@ sys.path.insert(0, ROOT)
 from tools import vrun
 from tools.vrun import Break, WORK
 
-UNITS = ['sim', 'lex', 'upd', 'ptab', 'qbk', 'arith', 'semk', 'ovl', 'scope', 'sigs', 'objm', 'trk', 'cli', 'qev', 'cyc', 'ldsh', 'pann', 'tfa', 'nest', 'ctab', 'astore', 'vtb', 'cfold']          # extended as units are built (see units/*.py)
+UNITS = ['sim', 'lex', 'upd', 'ptab', 'qbk', 'arith', 'semk', 'ovl', 'scope', 'sigs', 'objm', 'trk', 'cli', 'qev', 'cyc', 'ldsh', 'pann', 'tfa', 'nest', 'ctab', 'astore', 'vtb', 'cfold', 'acc']          # extended as units are built (see units/*.py)
 NCPU = os.cpu_count() or 8
 
 
